@@ -1,7 +1,7 @@
 SPECIFICATION GenSpec
 CONSTANTS
   Configs <- CfgsMix
-  Heads <- HeadsPlain
+  Heads <- HeadsPlainQ
   Levels = {}
   Calls = {}
   TextBytes = {0, 10, 97, 195}
